@@ -15,6 +15,7 @@ class Shadow:
         self.used = set()
         self.roots = ['n'] * NROOTS
         self.tls = {}
+        self.ghost = set()     # targets of Tuples / ProbeMs that became garbage in full mode (KF-C01-dangling-tuple-item: never del them)
         self.lines = ['mode full' if full else 'mode exact']
         self.next_id = 0
         self.stats = {}
@@ -59,7 +60,9 @@ class Shadow:
     def checkpoint(self):
         live = self.reach(slots=True)
         for i in list(self.o):
-            if i not in live: del self.o[i]
+            if i not in live:
+                if self.o[i]['kind'] in 'HM': self.ghost.update(int(t[1:]) for t in self.o[i]['el'] if t[0] == 'o')
+                del self.o[i]
     # ---- ops
     def new(self, kind, arg='-', slot=None, root=False, boxtgt=None):
         i = self.fresh(); self.used.add(i)
@@ -71,6 +74,14 @@ class Shadow:
         self.emit(f"new {i} {kind}{'!' if root else ''} {arg} {where}")
         if self.full: self.checkpoint()
         return i
+    def pair(self, slot=None):
+        a = self.fresh(); b = self.fresh(); self.used.update((a, b))
+        self.o[a] = dict(kind='R', k=1, root=False, owner=None, el=['n'], key=[])
+        self.o[b] = dict(kind='R', k=1, root=False, owner=None, el=['o%d' % a], key=[])
+        if slot is not None: self.roots[slot] = 'o%d' % b
+        self.emit(f"pair {a} {b} {'-' if slot is None else 's%d' % slot}")
+        if self.full: self.checkpoint()
+        return a, b
     def store(self, i, slot, tok):
         self.o[i]['el'][slot] = tok; self.emit(f'store {i} {slot} {tok}')
     def push(self, i, tok):
@@ -139,6 +150,8 @@ def mutate(rng, sh, cands_fn, new_slot_fn):
     cands = cands_fn()
     r = rng.random()
     if r < 0.28 or not cands:
+        if rng.random() < 0.08:
+            sh.pair(new_slot_fn()); return
         kind = rng.choice(KINDS)
         def mk(kind, slot, root=False):
             return sh.new(kind, arg=str(rng.choice([1, 2, 4, 8])) if kind == 'P' else '-', slot=slot, root=root)
@@ -148,7 +161,7 @@ def mutate(rng, sh, cands_fn, new_slot_fn):
             c2 = [c for c in cands_fn() if c != t and not sh.owned(c)]
             if c2 and sh.o[t]['kind'] in WORDS: sh.store(t, 0, 'o%d' % rng.choice(c2))
             elif c2: sh.push(t, 'o%d' % rng.choice(c2))
-            if t in sh.o and not sh.has_incoming(t, slot): sh.new('B', slot=slot, boxtgt=t)   # full mode: the box takes over the target's slot
+            if t in sh.o and t not in sh.ghost and not sh.has_incoming(t, slot): sh.new('B', slot=slot, boxtgt=t)   # full mode: the box takes over the target's slot
             return
         mk(kind, new_slot_fn(), root=rng.random() < (0.04 if sh.full else 0.08))
         return
@@ -215,7 +228,7 @@ def gen_full(rng, nops, nslots):
         elif r < 0.24: sh.churn(rng.choice([1, 5, 20, 60, 150]))
         elif r < 0.26:
             # explicit del of an object that has just become unreachable (before any allocation)
-            c = [i for i in sh.o if i not in lv and not sh.has_incoming(i)]
+            c = [i for i in sh.o if i not in lv and i not in sh.ghost and not sh.has_incoming(i)]
             if c: sh.delete(rng.choice(c))
         else:
             mutate(rng, sh, live, lambda: rng.randrange(nslots))
@@ -359,7 +372,8 @@ class C01(Spec):
                   'threshold-triggered and forced collections) is checked against a shadow-graph oracle: reachable ⊆ survivors, contents intact.')
     level_note = ('Trusted: Lean kernel; axioms propext/Quot.sound/Classical.choice at most; translate/g_gcmark.py (regex over GC.c and the Mark instances); the '
                   'harness/driver comparison (testing); the registry lookup inside GC_Mark_Item is abstracted as a finite map (its correctness is C17). '
-                  'Not covered: recursion depth of the C marker (known finding F27: chains of about 10^5 links overflow the C stack), other threads (C13), '
+                  'Not covered: recursion depth of the C marker (known finding F27: chains of about 10^5 links overflow the C stack), dangling pointers in '
+                  'Tuples after an explicit del (known finding KF-C01-dangling-tuple-item), other threads (C13), '
                   'objects unregistered by hand, Box targets referenced from elsewhere (ownership misuse).')
     rule = ('heap-graph histories over 11 object kinds (plain structs of 1-8 words, a probe with its own Mark instance, Ref, Box, Array/List of Ref, Table '
             'Int->Ref and Ref->Ref, Tree Int->Ref and Ref->Ref, heap Tuple) with random pointer stores (incl. misaligned, interior, out-of-range and small-integer '
@@ -367,8 +381,8 @@ class C01(Spec):
             'collections; exact mode: real mark functions on a chosen root-word list + real GC_Sweep, mark bits and swept set compared with the model; full mode: '
             'real GC_Mark/GC_Sweep triggered by allocation thresholds and forced. Targeted shapes: cycles through all kinds, self references, tuple cycles, '
             'TLS-only reachability, sharing through each representation, growth/shrink/rehash, box ownership, chains up to the cap. '
-            'non-trivial item = a collection that marked at least 2 objects and swept at least 1 (exact) or kept at least 2 live objects with at least one dead '
-            '(full); distinct = distinct op-file prefix up to that collection.')
+            'non-trivial item = a collection that marked at least 2 objects and swept at least 1 (exact mode) or a forced collection with at least 2 live '
+            'objects (full mode); distinct = distinct op-file prefix up to that collection.')
     trusted_base = ('translate/g_gcmark.py (regex over src/GC.c, Mark instances of Array/List/Table/Tree/Tuple/Thread)',
                     'harness/h_gcmark.c + lean/Driver/GcMark.lean + lean/Cello/HeapOps.lean (correspondence is testing)',
                     'the registry probe inside GC_Mark_Item / GC_Sweep is modelled as a finite map (C17 covers the registry)',
@@ -376,7 +390,9 @@ class C01(Spec):
     assumptions = ('single collector thread; registry counts below 2^63',
                    'chains of at most 20 000 links in generated cases: the C marker recurses once per link (known finding F27, witness corpus/kf_c01_deep_chain.ops)',
                    'an object owned by a Box is referenced only by that Box (Box_Del deletes its target)',
-                   'heap Tuples and user Mark instances hand only non-NULL pointers to registered objects; explicit del only of objects nothing live points to',
+                   'heap Tuples and user Mark instances hand only non-NULL pointers to registered objects; explicit del only of objects that nothing usable points to '
+                   'and that no Tuple / user Mark instance which has become garbage (and may not have been swept yet) pointed to: otherwise the next collection '
+                   'reads freed memory (known finding KF-C01-dangling-tuple-item, witness corpus/kf_c01_dangling_tuple.ops)',
                    'full mode: survivors may exceed the reachable set (conservative stack scan); only reachable objects are used by later ops')
     def cases(self, rng, tier, boost=1):
         quick = tier == 'quick'
@@ -425,6 +441,8 @@ class C01(Spec):
                 acc['exact_collections'] = acc.get('exact_collections', 0) + 1
                 acc['marked'] = acc.get('marked', 0) + int(m.group(1)); acc['swept'] = acc.get('swept', 0) + int(m.group(2))
                 acc['max_marked'] = max(acc.get('max_marked', 0), int(m.group(1)))
+        for l in core.lines_with('R ', m_out):
+            acc['model_' + l[2:].replace('=', '_')] = acc.get('model_' + l[2:].replace('=', '_'), 0) + 1
         for l in core.lines_with('I ', c_out):
             m = re.search(r'objects=(\d+) xcollects=(\d+) forced=(\d+) auto=(\d+)', l)
             if m:
